@@ -261,7 +261,7 @@ def evalG (pm : List Param) (s : Frame) : Stmt → List Int → Grid → M (Grid
   | .tabsAppendRange _ _ _, _, g => .ok (g, .norm)  -- excluded by `wf`
   | .setMode _ _, _, g => .ok (g, .norm)     -- excluded by `wf`
   | .forParams _, _, g => .ok (g, .norm)     -- excluded by `wf`
-  | .reply, _, g => .ok (g, .norm)           -- excluded by `wf`
+  | .reply _, _, g => .ok (g, .norm)           -- excluded by `wf`
   | .setSS _, _, g => .ok (g, .norm)         -- excluded by `wf`
   | .setSel _, _, g => .ok (g, .norm)        -- excluded by `wf`
   | .setDesig _ _, _, g => .ok (g, .norm)    -- excluded by `wf`
@@ -423,7 +423,7 @@ def evalS (pm : List Param) : Stmt → Frame → M (Frame × Sig)
   | .prim .savedAReset, s => .ok ({ s with e := { s.e with savedA := {} } }, .norm)
   | .prim .modeReset, s => .ok ({ s with e := { s.e with mode := { decawm := true, dectcem := true } } }, .norm)
   | .setMode f b, s => .ok ({ s with e := { s.e with mode := s.e.mode.set f b } }, .norm)
-  | .reply, s => .ok (s, .norm)
+  | .reply _, s => .ok (s, .norm)
   | .forPmAll body, s => do
     -- the loop rewrites the list in place: the result is held in `pmOv` (read by `evalPm`)
     let l ← mapPmM (fun v => do
